@@ -107,6 +107,17 @@ def run(ctx):
         cfg['report'] = 'mixed'
         cfg['disable_comments'] = False
         cfg['disable_exact'] = False      # a generalised '+' line carries the figure of its exact cardinality (documented)
+        if i % 3 == 0:
+            # the IRI stem of a shape is a function of the set of its instances, not of their order: instances in several schemes / hosts
+            cfg['detect_min_iri'] = True
+            ren = {}
+            def alt(t):
+                if t[0] == 'I' and t[1].startswith(EX + 'n'):
+                    if t[1] not in ren:
+                        ren[t[1]] = rng.choice([t[1], 'urn:isbn:' + t[1][len(EX):], 'http://example.com/' + t[1][len(EX):], 'http://example.org/books/' + t[1][len(EX):]])
+                    return ('I', ren[t[1]])
+                return t
+            g = [(alt(s_), p_, alt(o_)) for s_, p_, o_ in g]
         variants = []
         for _ in range(3):
             g2 = list(g)
@@ -189,6 +200,13 @@ def run(ctx):
             # (a) shapes, instance counts and constraint keys: always equal
             hdr0 = {lab: v[0] for lab, v in ev0.items()}
             hdr = {lab: v[0] for lab, v in ev.items()}
+            stems0 = {sh['label']: sh.get('stem') for sh in r0[1]['shapes']}
+            stems = {sh['label']: sh.get('stem') for sh in r[1]['shapes']}
+            if stems != stems0 and set(stems) == set(stems0):
+                lab = next(l for l in stems if stems[l] != stems0[l])
+                viol.append({"what": "the IRI stem of %s differs after %s: %r vs %r" % (lab, kind, stems0[lab], stems[lab]), "variant_nt": to_nt(gv),
+                             **pipeline.case_json(g, cfg)})
+                continue
             keys0 = {sh['label']: set(base.shape_keys(sh, cfg)) for sh in r0[1]['shapes']}
             keys = {sh['label']: set(base.shape_keys(sh, cfg)) for sh in r[1]['shapes']}
             if (hdr != hdr0 or keys != keys0) and cfg['remove_empty'] and all(hdr.get(l, hdr0.get(l)) == hdr0.get(l, hdr.get(l)) for l in set(hdr) | set(hdr0)):
